@@ -90,6 +90,17 @@ CHECKS.update({
           "DESIGN.md section 5, C10"),
 })
 
+CHECKS.update({
+ "C11": E("differential runtime oracle: every inverse entry point of KinematicsWithShape (both constructors) compared bit for bit, in order, with an independently built Tool{Base{OPW+limits}} stack filtered by the same robot's collides(); delegation of forward/links/limits/singularity; positioned_robot by pointer identity and f32 poses",
+          "Exploration: 4e3 / 2.5e5 cells (base/tool transforms general / rotation-only / translation-only / identity, obstacles placed on IK branches) x four entry points; cases with partial removal and order-sensitive removal are counted.",
+          "Trusted base: the same robot's collides() as the definition of 'reported colliding'.",
+          "DESIGN.md section 5, C11"),
+ "C14": E("runtime oracle: non_colliding_offsets compared, in order, with the twelve single-joint candidates filtered by the limits and by the same robot's full collides(); rayon pools 1..16",
+          "Exploration: 8e3 / 4e5 cells x initial/from/to vectors with obstacles placed next to links of offset postures (moved-vs-unmoved, moved-vs-base, tool-vs-unmoved, moved-vs-environment all occur), with/without base and tool, touch and distance tables.",
+          "Trusted base: the same robot's full collides(); precondition (collision-free initial vector) enforced by the workload.",
+          "DESIGN.md section 5, C14"),
+})
+
 def main():
     props = [json.loads(l) for l in open('/verif/properties.jsonl')]
     hooks_commits = subprocess.run(['git','-C','/repo','log','--format=%H %s'],capture_output=True,text=True).stdout.splitlines()
